@@ -3,9 +3,11 @@
 package main
 
 import (
+	"encoding/hex"
 	"flag"
 	"fmt"
 	"os"
+	"runtime/debug"
 	"strconv"
 
 	"github.com/superfly/macaroon"
@@ -65,7 +67,19 @@ func main() {
 	tier := flag.String("tier", "quick", "quick|thorough")
 	seedS := flag.String("seed", "1", "seed")
 	out := flag.String("out", "", "output directory")
+	decodeHex := flag.String("decode-hex", "", "child mode: decode this input with every decoder and exit 0 (run by the C12 stream under a memory limit)")
 	flag.Parse()
+	if *decodeHex != "" {
+		in, err := hex.DecodeString(*decodeHex)
+		if err != nil {
+			os.Exit(3)
+		}
+		debug.SetGCPercent(100)
+		macaroon.Decode(in)
+		macaroon.DecodeCaveats(in)
+		macaroon.DecodeNonce(in)
+		os.Exit(0)
+	}
 	seed, _ := strconv.ParseUint(*seedS, 10, 64)
 	f, ok := props[*prop]
 	if !ok {
